@@ -692,7 +692,11 @@ def run_capture(ctx, tool, frames, keylog, plaintexts, cls, variants, label):
     ctx.hist("oracle.class", cls)
     for v, sec in usable:
         items = ([("dsb", keylog.encode())] if sec == "dsb" else []) + pkts
-        data = C.write(v, items)
+        C.BIG_UNRELATED = True          # variants with blocks before every item: one of them is a 300 kB custom block between packets
+        try:
+            data = C.write(v, items)
+        finally:
+            C.BIG_UNRELATED = False
         status, blob = tool.run(data, v.legacy, None if sec == "dsb" else keylog)
         o["runs"] += 1
         dec = strict_packets(blob)
